@@ -101,7 +101,12 @@ def exl_cases(rng, n0, count):
         ne = rng.choice([0, 1, 2, 5, 40])
         entries = []
         for _ in range(ne):
-            nm = [c for c in rtext(rng, 1, 14) if c not in (44, 35)] or [65]
+            nm = [c for c in rtext(rng, 1, 14) if c != 44] or [65]
+            if rng.random() < 0.25:
+                ok = [i for i in range(1, len(nm) + 1) if i == len(nm) or nm[i] < 128 or nm[i] >= 192]
+                nm.insert(rng.choice(ok), 35)               # '#' inside a name is ordinary text
+            if nm[0] == 35:
+                nm[0] = 81                                  # ... only a leading '#' makes a comment row
             if bytes(nm) == b"EXLT":
                 nm = [65]
             entries.append([nm, rng.choice(ids) if rng.random() < 0.5 else rng.randint(-2**31, 2**31 - 1)])
